@@ -235,6 +235,15 @@ func Snapshot(repo string) (snapshot string, scratchRepo string, err error) {
 	return st.sb.Snapshot, st.sb.Scratch, nil
 }
 
+// ToolsDir returns the directory holding `wuffs` and `wuffs-c` built from repo's working tree.
+func ToolsDir(repo string) (string, error) {
+	st, err := getState(repo)
+	if err != nil {
+		return "", err
+	}
+	return st.sb.BinDir, nil
+}
+
 func (st *stdState) build(fl Flavour) (string, time.Duration, error) {
 	mu.Lock()
 	b := st.bins[fl]
